@@ -39,8 +39,10 @@ R = core.R
 # ---------------------------------------------------------------------------
 # (a) legacy TableReader: getValue / _findIndex
 
-def getvalue_case(n, via="getValue"):
-  res = new_result("TableReader %s n=%d" % (via, n))
+def getvalue_case(n, via="getValue", repeats=False):
+  """repeats: rows may share an x value (two pasted blocks with a common boundary row); queries at a
+  repeated x are excluded (which of its y values is 'the tabulated y' is not defined), everywhere else the specification is unchanged"""
+  res = new_result("TableReader %s n=%d%s" % (via, n, " (repeated x allowed)" if repeats else ""))
   from atsim.potentials._tablereaders import TableReaderBase
   import atsim.potentials as ap
 
@@ -49,7 +51,10 @@ def getvalue_case(n, via="getValue"):
     ys = [sym("y%d" % i) for i in range(n)]
     q = sym("q")
     for i in range(n - 1):
-      assume(xs[i] < xs[i + 1])
+      assume((xs[i] <= xs[i + 1]) if repeats else (xs[i] < xs[i + 1]))
+    if repeats:
+      for i in range(n - 1):
+        assume(z3.Implies(term(xs[i]) == term(xs[i + 1]), term(q) != term(xs[i])))
 
     class Rd(TableReaderBase):
       def _populate(self, fileobj):
@@ -92,19 +97,19 @@ def getvalue_case(n, via="getValue"):
     return vcs
 
   def replay(v, w, path, structural):
-    return replay_getvalue(n, w)
+    return replay_getvalue(n, w, repeats)
 
   explore_and_check(res, fn, build, replay=replay, negative=lambda p: build(p, wrong=True), explorer_kw=dict(max_paths=4000))
   return res
 
 
-def replay_getvalue(n, w):
+def replay_getvalue(n, w, repeats=False):
   import atsim.potentials as ap
   xs, ys = [], []
   ok = True
   for i in range(n):
     x, y = w.get("x%d" % i), w.get("y%d" % i)
-    if not isinstance(x, float) or not isinstance(y, float) or (xs and x <= xs[-1]) or abs(x) > 1e6 or abs(y) > 1e6:
+    if not isinstance(x, float) or not isinstance(y, float) or (xs and (x < xs[-1] if repeats else x <= xs[-1])) or abs(x) > 1e6 or abs(y) > 1e6:
       ok = False
       break
     xs.append(x)
@@ -112,9 +117,12 @@ def replay_getvalue(n, w):
   if not ok:
     xs = [0.5 + 0.75 * i for i in range(n)]
     ys = [1.0 + ((-1) ** i) * 0.5 * (i + 1) for i in range(n)]
+    if repeats and n >= 3:
+      xs[1] = xs[0]          # two rows share the lowest x
+      ys[1] = ys[0]
   text = "# x y\n\n" + "".join("%r %r\n" % (x, y) for x, y in reversed(list(zip(xs, ys))))
   t = ap.TableReader(io.StringIO(text))
-  qs = list(xs) + [0.5 * (a + b) for a, b in zip(xs, xs[1:])] + [xs[0] - 1.0, xs[-1] + 1.0]
+  qs = [x for x in xs if xs.count(x) == 1] + [0.5 * (a + b) for a, b in zip(xs, xs[1:]) if a != b] + [xs[0] - 1.0, xs[-1] + 1.0]
   if isinstance(w.get("q"), float) and ok:
     qs.append(w["q"])
   bad = []
@@ -122,11 +130,17 @@ def replay_getvalue(n, w):
     if qv < xs[0] or qv > xs[-1]:
       want = 0.0
     elif qv in xs:
+      if xs.count(qv) > 1:
+        continue
       want = ys[xs.index(qv)]
     else:
       i = max(j for j in range(n) if xs[j] < qv)
       want = ys[i] + (ys[i + 1] - ys[i]) * (qv - xs[i]) / (xs[i + 1] - xs[i])
-    got = t(qv)
+    try:
+      got = t(qv)
+    except Exception as e:  # noqa
+      bad.append("TableReader(%r) raises %s: %s (data %r)" % (qv, type(e).__name__, e, list(zip(xs, ys))))
+      continue
     if abs(got - want) > 1e-9 * max(1.0, abs(want)):
       bad.append("TableReader(%r) = %r, specification %r (data %r)" % (qv, got, want, list(zip(xs, ys))))
   return (bool(bad), "; ".join(bad[:3]) or "TableReader agrees with the piecewise-linear specification", dict(kind="tablereader", x=xs, y=ys))
@@ -392,6 +406,8 @@ def cases(tier, seed=0):
   for n in (range(1, 5) if q else range(1, 7)):
     cs.append(Case("getValue n=%d" % n, getvalue_case, n=n))
   cs.append(Case("TableReader n=3", getvalue_case, n=3, via="TableReader"))
+  for n in ((3, 4) if q else (3, 4, 5)):
+    cs.append(Case("getValue n=%d repeats" % n, getvalue_case, n=n, repeats=True))
   for route in ("plotToFile", "plot", "plotPotentialObjectToFile", "plotPotentialObject"):
     for steps in ((1, 3, 5) if q else range(1, 9)):
       cs.append(Case("plot %s %d" % (route, steps), plot_case, steps=steps, route=route))
